@@ -209,6 +209,13 @@ fn reply_obj(cont: bool, err: Option<&String>, params: Option<&Value>) -> Vec<u8
     b
 }
 
+/// `localhost` is only used as a host name where this machine resolves it to 127.0.0.1.
+fn localhost_resolves() -> bool {
+    use std::net::ToSocketAddrs;
+    static OK: std::sync::OnceLock<bool> = std::sync::OnceLock::new();
+    *OK.get_or_init(|| ("localhost", 1u16).to_socket_addrs().map(|mut a| a.any(|x| x.ip() == std::net::Ipv4Addr::LOCALHOST)).unwrap_or(false))
+}
+
 pub fn run_case(c: &Case, dir: &std::path::Path, n: u64) -> Result<(), Fail> {
     let Some(exe) = repo_bin("varlink") else { return Err(Fail::new("HARNESS/no-varlink-binary", "VERIF_REPO_BIN/varlink missing".to_string())) };
     let method = "org.example.fake.Method";
@@ -231,7 +238,8 @@ pub fn run_case(c: &Case, dir: &std::path::Path, n: u64) -> Result<(), Fail> {
         _ => {
             let l = TcpListener::bind("127.0.0.1:0").map_err(|e| Fail::new("HARNESS/bind", e.to_string()))?;
             let port = l.local_addr().map(|a| a.port()).unwrap_or(0);
-            (Listener::Tcp(l), format!("tcp:127.0.0.1:{}", port))
+            // the library takes "hostname/IP address and port": every other call names the host
+            (Listener::Tcp(l), if n % 2 == 1 && localhost_resolves() { format!("tcp:localhost:{}", port) } else { format!("tcp:127.0.0.1:{}", port) })
         }
     };
     // script
@@ -456,7 +464,7 @@ pub fn run(args: &Args) -> ! {
             Final::Err(..) => "final:custom-error",
             Final::Close => "final:connection-closed",
         });
-        ctx.class(["address:unix-path-with-slashes", "address:unix-abstract(every other name with slashes)", "address:tcp"][(c.addr_form % 3) as usize]);
+        ctx.class(["address:unix-path-with-slashes", "address:unix-abstract(every other name with slashes)", "address:tcp(every other one by host name)"][(c.addr_form % 3) as usize]);
         ctx.sample(|| case_json(c));
         run_case(c, &scratch.path, counter.get())
     });
